@@ -69,18 +69,20 @@ def model_check(ctx, known):
     thorough = ctx.tier == "thorough"
     s4 = ["on", "off", "pb_on", "c_RO_2"]
     s5 = ["off", "pb_off", "rmid", "c_RS_0", "c_DROP_n"]
+    # MaxOps = 60 is never reached: the graphs are the COMPLETE finite state spaces for the other bounds
+    # (and their sizes do not depend on TLC's multi-worker BFS order)
     runs = [  # (name, shape, samplers, flags, forms, coverage)
-        ("1thr-ent3-depth2", (1, 3, 1, 2, 6), s4, [0, 1, 255], ["valid", "zero"], True),
-        ("2thr-ent2-all-samplers", (2, 2, 1, 1, 5), ALL_S, ALL_F, ALL_FORMS, False),
+        ("1thr-ent3-depth2", (1, 3, 1, 2, 60), s4, [0, 1, 255], ["valid", "zero"], True),
+        ("2thr-ent2-all-samplers", (2, 2, 1, 1, 60), ALL_S, ALL_F, ALL_FORMS, False),
     ]
     if thorough:
         runs += [
-            ("2thr-ent3-depth1", (2, 3, 1, 1, 6), s4, [0, 1, 255], ["valid", "zero"], False),
-            ("2thr-ent2-all-depth2", (2, 2, 1, 2, 6), ALL_S, ALL_F, ALL_FORMS, False),
-            ("1thr-ent3-all-samplers", (1, 3, 1, 1, 6), ALL_S, [0, 1, 255], ["valid", "zero"], False),
-            ("2thr-ent3-depth2", (2, 3, 1, 2, 6), s4, [0, 1, 255], ["valid", "zero"], False),
-            ("2thr-ent3-2remotes", (2, 3, 2, 1, 6), s5, [0, 3], ["valid", "nospan"], False),
-            ("1thr-ent4", (1, 4, 1, 2, 7), ["off", "pb_on", "c_RO_2"], [1, 255], ["valid", "zero"], False),
+            ("2thr-ent3-depth1", (2, 3, 1, 1, 60), s4, [0, 1, 255], ["valid", "zero"], False),
+            ("2thr-ent2-all-depth2", (2, 2, 1, 2, 60), ALL_S, ALL_F, ALL_FORMS, False),
+            ("1thr-ent3-all-samplers", (1, 3, 1, 1, 60), ALL_S, [0, 1, 255], ["valid", "zero"], False),
+            ("2thr-ent3-depth2", (2, 3, 1, 2, 60), s4, [0, 1, 255], ["valid", "zero"], False),
+            ("2thr-ent3-2remotes", (2, 3, 2, 1, 60), s5, [0, 3], ["valid", "nospan"], False),
+            ("1thr-ent4", (1, 4, 1, 2, 60), ["off", "pb_on", "c_RO_2"], [1, 255], ["valid", "zero"], False),
         ]
     fams = [("ideal", set())] + ([("as-implemented", known)] if known else [])
     jobs = []
@@ -162,8 +164,8 @@ def generate(ctx, known):
 
     def gen(j):
         fam, src, c, sim = j
-        return j, tlc.tlc(MODULE, c, rundir=ctx.rundir.path, workers=4, timeout_s=1200, simulate=sim,
-                          seed=(ctx.seed * 7 + 3) if sim else None, tag="gen-%s-%s" % (fam, src))
+        return j, tlc.tlc(MODULE, c, rundir=ctx.rundir.path, workers=4 if sim else 1, timeout_s=1200, simulate=sim,
+                          seed=(ctx.seed * 7 + 3) if sim else None, tag="gen-%s-%s" % (fam, src))   # BFS: 1 worker = deterministic
     ideal_keys = set()
     with cf.ThreadPoolExecutor(max_workers=3) as ex:
         for (fam, src, c, sim), r in ex.map(gen, jobs):
